@@ -17,7 +17,9 @@ import time
 
 VERIF = "/verif"
 SPEC = os.path.join(VERIF, "spec")
-KVH = os.path.join(VERIF, "harness", "bin", "kvh")
+REPO = os.environ.get("VERIF_REPO", "/repo")
+_KEY = re.sub(r"[^A-Za-z0-9]", "_", REPO)
+KVH = os.path.join(VERIF, "harness", "bin", "kvh-" + _KEY)
 T0 = time.time()
 
 
@@ -59,10 +61,11 @@ def build_harness():
     r = subprocess.run([os.path.join(VERIF, "bin", "genmod")], capture_output=True, text=True)
     if r.returncode != 0:
         raise Broken("genmod failed: " + r.stderr)
-    r = subprocess.run(["go", "build", "-tags", "verif", "-o", KVH, "./cmd/kvh"],
+    modfile = r.stdout.strip().splitlines()[-1]
+    r = subprocess.run(["go", "build", "-tags", "verif", "-modfile", modfile, "-o", KVH, "./cmd/kvh"],
                        cwd=os.path.join(VERIF, "harness"), env=goenv(), capture_output=True, text=True)
     if r.returncode != 0:
-        raise Broken("harness build failed (does /repo still compile?):\n" + r.stdout + r.stderr)
+        raise Broken("harness build failed (does %s still compile?):\n" % REPO + r.stdout + r.stderr)
     _built = True
     log("harness built in %.1fs" % (time.time() - t))
 
@@ -248,7 +251,7 @@ def segment_of(fp, line_no):
 
 
 def save_replay(prop, what, seg, rest, res, extra=None):
-    d = os.path.join(VERIF, "replays", "%s-%d-%d" % (prop, int(time.time()), os.getpid()))
+    d = os.path.join(os.environ.get("VERIF_REPLAY_DIR") or os.path.join(VERIF, "replays"), "%s-%d-%d" % (prop, int(time.time()), os.getpid()))
     k = 0
     base = d
     while os.path.exists(d):
@@ -293,13 +296,14 @@ def known_findings(prop):
 # ---------- evidence ----------
 
 def write_evidence(prop, tier, seed, level, coverage, assumptions, violations):
-    os.makedirs(os.path.join(VERIF, "evidence"), exist_ok=True)
+    evdir = os.environ.get("VERIF_EVIDENCE_DIR") or os.path.join(VERIF, "evidence")
+    os.makedirs(evdir, exist_ok=True)
     ev = {
         "property_id": prop, "tier": tier, "seed": int(seed), "level": level,
         "coverage": coverage, "assumptions": assumptions,
         "wall_s": round(time.time() - T0, 2), "violations": int(violations),
     }
-    p = os.path.join(VERIF, "evidence", prop + ".json")
+    p = os.path.join(evdir, prop + ".json")
     tmp = p + ".tmp"
     with open(tmp, "w") as f:
         json.dump(ev, f, indent=1, sort_keys=True)
